@@ -331,6 +331,23 @@ let judge_case (u : uni) (case : sx) (obs : sx list) : verdict =
          | A "zero" -> zero_of u.env (TStruct nsid)
          | x -> val_of_sx x in
        let md = decode_object u.env [] nsid bs d in
+       (* model-side: the reference decoder agrees with the implementation-shaped one on
+          every input that is a well-formed message within the depth budgets *)
+       (match (if List.length bs > 20000 then PErr else parse_struct depth_fuel bs) with
+        | POk (w, rest) when wf w ->
+            let nd = int_of_nat (need u.env (TStruct nsid) w) - 1 and sk = int_of_nat (skipped_depth u.env (TStruct nsid) w) in
+            if nd <= int_of_n maxDepthLimit && sk <= 64 then begin
+              let consumed = List.length bs - List.length rest in
+              (match absorb_top u.env nsid w d, md with
+               | AOk av, DOk ((mv, mn), _) ->
+                   if not (val_eqb av mv) then fail v "model-absorb-ne-decode" (Printf.sprintf "absorb %s decode %s" (str_of_val av) (str_of_val mv));
+                   if int_of_n mn <> consumed then fail v "model-absorb-n" "consumed length differs from the parse"
+               | (AMismatch | AMissing _), DErr _ -> ()
+               | a, _ -> fail v "model-absorb-ne-decode" (Printf.sprintf "absorb %s but decode %s"
+                           (match a with AOk _ -> "ok" | AMismatch -> "mismatch" | AMissing _ -> "missing" | ABad -> "bad")
+                           (match md with DOk _ -> "ok" | DErr e -> derr_name e | DPanic -> "panic" | DFuel -> "fuel")))
+            end
+        | _ -> ());
        (match obs with
         | dobs :: A same :: _ ->
             check_decode u v sid md dobs "corr-";
